@@ -147,7 +147,18 @@ func shortFuncName(o *types.Func) string {
 }
 
 // decider names what decides a condition.
+// deciderBind: while the guards of a helper are translated to a call site, the helper's parameters stand for the
+// arguments of that call (a bool computed by the caller, a constant bound, ...).
+var deciderBind map[*ssa.Parameter]ssa.Value
+
 func deciderOf(v ssa.Value) string {
+	if p, ok := v.(*ssa.Parameter); ok && deciderBind != nil {
+		if a, bound := deciderBind[p]; bound {
+			if _, again := a.(*ssa.Parameter); !again {
+				return deciderOf(a)
+			}
+		}
+	}
 	switch x := v.(type) {
 	case *ssa.UnOp:
 		if x.Op == token.NOT {
@@ -192,6 +203,20 @@ func deciderOf(v ssa.Value) string {
 			op = "<"
 		case token.LEQ:
 			op = ">"
+		}
+		yv := x.Y
+		if p, ok := stripConv(yv).(*ssa.Parameter); ok && deciderBind != nil {
+			if a, bound := deciderBind[p]; bound {
+				yv = stripConv(a)
+			}
+		}
+		if _, isC := yv.(*ssa.Const); isC && !isNilConst(yv) {
+			if _, already := x.Y.(*ssa.Const); !already {
+				if l != "" && l != "load" && l != "value" {
+					return l + " " + op + " const"
+				}
+				return op + " const"
+			}
 		}
 		if isNilConst(x.Y) || isNilConst(x.X) {
 			if l != "" && l != "load" && l != "value" {
@@ -1032,18 +1057,18 @@ func liftFrom(fn *ssa.Function, call *ssa.Call, g *ssa.Function, onParam bool, c
 			}
 			sort.Strings(fields)
 			dec := S.decider
-			// a helper comparing against one of its parameters that this call binds to a constant: the same decision as
-			// the comparison with that constant written inline
-			if bo, isBo := S.cond.(*ssa.BinOp); isBo && !strings.HasSuffix(dec, " const") && !strings.HasSuffix(dec, " nil") && !strings.Contains(dec, " & ") {
-				if prm, isP := stripConv(bo.Y).(*ssa.Parameter); isP {
-					for i, gp := range g.Params {
-						if gp == prm && i < len(call.Call.Args) {
-							if _, isC := stripConv(call.Call.Args[i]).(*ssa.Const); isC {
-								dec += " const"
-							}
-						}
+			// the helper's parameters stand for this call's arguments: a comparison with a parameter bound to a constant
+			// is the comparison with that constant, a bool parameter computed by the caller is named by that computation
+			if !strings.Contains(dec, " & ") && !strings.Contains(dec, " | ") && S.inner == nil {
+				prev := deciderBind
+				deciderBind = map[*ssa.Parameter]ssa.Value{}
+				for i, gp := range g.Params {
+					if i < len(call.Call.Args) {
+						deciderBind[gp] = call.Call.Args[i]
 					}
 				}
+				dec = deciderOf(S.cond)
+				deciderBind = prev
 			}
 			lg := guard{fn: fn, iff: Giff, ret: Gret, decider: dec, fields: fields, cond: S.cond, pos: S.pos, passBlk: GpassBlk, inner: S.iff}
 			if S.inner != nil {
